@@ -1,14 +1,15 @@
 PROP = dict(
     id="C20",
     lean_modules=["TongoProofs.C20"],
-    gen=["IntJson"],
+    gen=["IntJson", "BocHeader", "CellDesc", "MinBits"],
     spec_ops=(),
     rule="values: every generated integer width 1..64 signed and unsigned at 0, 1, max, max-1, min, min+1, -1 and random "
          "values; every big.Int type at 0, +-1, +-2^w boundaries and random; every BitsN length; ton.Bits256, tl.Int256, "
          "Grams, SignedCoins (negatives incl. min int64), Magic; bit strings of 0..1023 bits (boundaries over-weighted); all "
          "four address kinds, standard workchains -128..127 in turn, variable workchains over the int32 range, anycast "
          "present/absent, lengths 0..1023, and on every run the workchain boundaries -128, -127, -1, 0, 1, 126, 127 (std) / "
-         "-129, 128, +-2^15, +-2^31 (var); Maybe[T] for eleven instantiations incl. a composite record; cells (random DAGs with references), account "
+         "-129, 128, +-2^15, +-2^31 (var); Maybe[T] for eleven instantiations incl. a composite record; cells (random DAGs with references; on every run DAGs of exactly 255/256/257 distinct cells — "
+         "65535/65536/65537 in the thorough tier — with 4-ref and 1023-bit cells, chains of depth 1023 and 1024), account "
          "ids, message-body envelopes (hand-made object documents: key case, duplicates, nulls, wrong types, op-code range). "
          "Every sixth value (every third in the thorough tier) is followed by ~130 mutated "
          "documents (quotes dropped/added, signs, spaces, leading zeros, exponents, underscores, overlong and boundary "
